@@ -16,7 +16,7 @@ import (
 func init() {
 	register(Property{
 		ID:          "C12",
-		Explanation: "Decided statically: R1 provenance of the two comment indexes - under the assumption isTrailing == t every store of the collecting closure writes the index of class t, and a comment group is entered as 'leading' only if it is some node's .Doc, or the generic *ast.CommentGroup visit filtered by a membership test in a set that holds the .Comment group of every node kind that has one (Field, ValueSpec, TypeSpec, ImportSpec); a .Comment group is only ever entered as 'trailing' (so a trailing comment can never become the next line's doc); R2 Doc looks up line-1 and Comment line+0, and the trailing index is consulted only for delta 0; R3 index keys: trailing entries at the statement's own line, leading entries at the line above the statement or the line the group ends on, first entry wins; R4 tag extraction: every iteration appends the line to exactly one of {other lines, tags[key]}, decided by a condition that is equivalent (truth table over {line empty, first byte is a marker}; membership test recognised semantically) to `non-empty and first byte is one of the markers`, on the line trimmed with cutset \" \", default markers are '+' and '@', key/value split happens at the first '=' or ' ' only, and lines starting with go: are dropped from comment lines. R1 also: a filter-set store cannot be bypassed inside its case clause (only an `x.Comment != nil` guard is tolerated); R5 Doc, Comment and what they call write no receiver state and fill no cache (callers edit the returned lines in place). R4 also: the comment text is cut at every line break, without a bound on the number of pieces. R2 also: builder and lookup of the comment index turn positions into (file, line) by the same mapping (FileSet.Position vs PositionFor/File.Line), looked through the package's own helpers. R1 also: a group is entered under the position of the node that owns it. R6 every file is parsed with comments (no ParseFile hook in the loader's packages.Config, or a constant mode with ParseComments). R1 also: the callback of the indexing walk answers true (false only for the nil node). R1 also: the .Doc group of every ValueSpec, TypeSpec and Field is entered under the declaration's own position; R4 also: comment lines are handed on as they were cut. NOT decided: the exact text of returned lines for every comment layout (block comments, TrimSpace, blank lines) - value level.",
+		Explanation: "Decided statically: R1 provenance of the two comment indexes - under the assumption isTrailing == t every store of the collecting closure writes the index of class t, and a comment group is entered as 'leading' only if it is some node's .Doc, or the generic *ast.CommentGroup visit filtered by a membership test in a set that holds the .Comment group of every node kind that has one (Field, ValueSpec, TypeSpec, ImportSpec); a .Comment group is only ever entered as 'trailing' (so a trailing comment can never become the next line's doc); R2 Doc looks up line-1 and Comment line+0, and the trailing index is consulted only for delta 0; R3 index keys: trailing entries at the statement's own line, leading entries at the line above the statement or the line the group ends on, first entry wins; R4 tag extraction: every iteration appends the line to exactly one of {other lines, tags[key]}, decided by a condition that is equivalent (truth table over {line empty, first byte is a marker}; membership test recognised semantically) to `non-empty and first byte is one of the markers`, on the line trimmed with cutset \" \", default markers are '+' and '@', key/value split happens at the first '=' or ' ' only, and lines starting with go: are dropped from comment lines. R1 also: a filter-set store cannot be bypassed inside its case clause (only an `x.Comment != nil` guard is tolerated); R5 Doc, Comment and what they call write no receiver state and fill no cache (callers edit the returned lines in place). R4 also: the comment text is cut at every line break, without a bound on the number of pieces. R2 also: builder and lookup of the comment index turn positions into (file, line) by the same mapping (FileSet.Position vs PositionFor/File.Line), looked through the package's own helpers. R1 also: a group is entered under the position of the node that owns it. R6 every file is parsed with comments (no ParseFile hook in the loader's packages.Config, or a constant mode with ParseComments). R1 also: the callback of the indexing walk answers true (false only for the nil node). R1 also: the .Doc group of every ValueSpec, TypeSpec and Field is entered under the declaration's own position; R4 also: comment lines are handed on as they were cut. NOT decided: the exact text of returned lines for every comment layout (block comments, TrimSpace, blank lines) - value level. Round 8: R1 also: a group entered as leading is the node of the walk or a node's .Doc, never an element of a ranged-over list such as File.Comments (free-floating comments are nobody's documentation); R2/R3 also read keys and lookups that are written out in place (fileLine{x.Filename, x.Line + c} over FileSet.Position).",
 		Assumptions: append([]string{"ast.Inspect visits a node before its children (so a spec's .Comment is marked before the generic comment-group visit sees it)"}, commonAssumptions...),
 		Run:         runC12,
 	})
